@@ -16,15 +16,15 @@ CLAIMED = {
    "Input sets bounded as stated; the raw channels of the hostile client are reached through the client-side struct qb_ipc_one_way."),
  "C03": ("fault_enumeration", "DESIGN.md §2 C03", "vp",
    "exhaustive crash-point enumeration: the dying party (client or server coroutine of the real IPC code) is stopped before each of its wrapped system/libc calls in turn and exactly its descriptors are closed",
-   "For both transports and each session script (connect/disconnect; two request/response round trips; further requests left queued behind flow control; queued events; a raw client delivering only the first j handshake bytes) the run is repeated with the client killed before its K-th wrapped call for every K, with the server killed before its K-th call during each session, with the server killed K calls after the connect while sendv_recv(-1), event_recv(-1) or recv(500 ms) is waiting on a server that does not answer, and - deaths at arbitrary moments of the OTHER side's execution - with the client killed (wherever it is, also blocked inside a call) just before the J-th wrapped call the server makes during the session for every J, and the server killed just before the client's J-th call. A control client stays connected. Oracle: destroyed exactly once (closed first iff created was reported), the control client's round trip still works, /dev/shm listing, descriptor count and active-connection statistic return to the baseline; waiting calls return within a bounded virtual time, later calls fail at once, and after the client's disconnect no shared-memory file of the dead server remains.",
+   "For both transports and each session script (connect/disconnect; two request/response round trips; further requests left queued behind flow control; queued events; a raw client delivering only the first j handshake bytes) the run is repeated with the client killed before its K-th wrapped call for every K, with the server killed before its K-th call during each session, with the server killed K calls after the connect while sendv_recv(-1), event_recv(-1) or recv(500 ms) is waiting on a server that does not answer, a handled signal may interrupt that waiting call once half-way (EINTR); and - deaths at arbitrary moments of the OTHER side's execution - with the client killed (wherever it is, also blocked inside a call) just before the J-th wrapped call the server makes during the session for every J, and the server killed just before the client's J-th call. A control client stays connected. Oracle: destroyed exactly once (closed first iff created was reported), the control client's round trip still works, /dev/shm listing, descriptor count and active-connection statistic return to the baseline; waiting calls return within a bounded virtual time, later calls fail at once, and after the client's disconnect no shared-memory file of the dead server remains.",
    "Death at call boundaries of the wrapped set (socket, connect, bind, accept, send/recv(msg), writev, poll, epoll_wait, sem_timedwait, nanosleep, open, unlink, rmdir, mkdtemp, ftruncate, chmod, chown, munmap, shutdown) or while blocked in one of them; one canonical schedule per crash point in quick, one deviation in thorough; an empty directory left by a dead server is not counted as a shared-memory file; a server that dies while the client is already inside qb_ipcc_disconnect is not judged for leftovers."),
  "C04": ("model_checking", "DESIGN.md §2 C04", "vp",
    "bounded-exhaustive exploration of client scripts, application actions taken at loop-iteration boundaries and inside callbacks, and client/server interleavings of the real IPC server against a per-connection callback automaton (ASan for freed state)",
-   "One client with scripts of up to 3 operations over connect, send, disconnect, die, idle (and two clients with shorter scripts, context-bounded) against a real server on both transports; at every loop-iteration boundary where something changed and inside every created/msg_process/closed callback the application takes one of: nothing, qb_ipcs_disconnect of any known connection, event_send, connection_ref, connection_unref (of references it holds), iterate the connection list, change the rate limit, qb_ipcs_destroy; the closed callback returns non-zero 0-2 times; what the scripts left queued is still dispatched with the application free to act. Oracle: accept -> created -> msg* -> closed+ -> destroyed per connection, closed only if created, destroyed exactly once and never while the application holds a reference, everything destroyed in the end, no touch of freed connection/service state.",
+   "One client with scripts of up to 3 operations over connect, send, disconnect, die, idle (and two clients with shorter scripts, context-bounded) against a real server on both transports; at every loop-iteration boundary where something changed and inside every created/msg_process/closed callback the application takes one of: nothing, qb_ipcs_disconnect of any known connection, event_send, connection_ref, connection_unref (of references it holds), iterate the connection list, change the rate limit, qb_ipcs_destroy; the closed callback returns non-zero 0-2 times; what the scripts left queued is still dispatched with the application free to act; a third run kills the client in the middle of the handshake (just before the server's J-th call, every J); the rate-limit action switches flow control on and off for every listed connection. Oracle: accept -> created -> msg* -> closed+ -> destroyed per connection, closed only if created, destroyed exactly once and never while the application holds a reference, everything destroyed in the end, no touch of freed connection/service state.",
    "At most 1-2 non-trivial application actions per run; one forked process per execution; a dying client = its descriptors are closed."),
  "C02": ("model_checking", "DESIGN.md §2 C02", "vp",
    "bounded-exhaustive exploration of client scripts, server behaviours and client/server interleavings of the real IPC code (server and client as coroutines in one process, real sockets/epoll/shm, virtual waiting)",
-   "A real qb_ipcs server on a real qb_loop and a real qb_ipcc client run as coroutines of one process on both transports with libqb's minimum negotiated message size. Every client script of 2-3 operations over send (five lengths incl. max and max+1), sendv, recv(0), event_recv(0) and poll(fd_get), every msg_process behaviour per call (echo / nothing / back-off), server actions at loop-iteration boundaries (event_send of three lengths, the four rate-limit settings, a burst of 7 events on minimum-size socket buffers) and every interleaving of client operations with server iterations — plus up to 1 preemption at any system call — is executed; the server application also acts on its own (its loop is woken once before the client's first and twice after its last operation). Oracle: three reference FIFOs with byte-exact payloads (requests are compared at callback entry and again at its end), a failed send has no effect, EMSGSIZE above the maximum, POLLIN on the client's descriptor while events are queued, drain to quiescence with nothing lost, duplicated or extra.",
+   "A real qb_ipcs server on a real qb_loop and a real qb_ipcc client run as coroutines of one process on both transports with libqb's minimum negotiated message size. Every client script of 2-3 operations over send (five lengths incl. max and max+1), sendv, recv(0), event_recv(0) and poll(fd_get), every msg_process behaviour per call (echo / nothing / back-off), server actions at loop-iteration boundaries (event_send of three lengths, the four rate-limit settings, a burst of 7 events on minimum-size socket buffers) and every interleaving of client operations with server iterations — plus up to 1 preemption at any system call — is executed; the server application also acts on its own (its loop is woken once before the client's first and twice after its last operation); on minimum-size buffers the client has a burst of 8 small sendv requests; at the end events are drained first with the rate limit left as the application set it. Oracle: three reference FIFOs with byte-exact payloads (requests are compared at callback entry and again at its end), a failed send has no effect, EMSGSIZE above the maximum, POLLIN on the client's descriptor while events are queued, drain to quiescence with nothing lost, duplicated or extra.",
    "Bounds as stated; one client; waiting is virtual (zero-timeout kernel queries + virtual deadlines) while sockets, epoll and shared-memory files are the real kernel objects; word-level ring interleavings are C01's job; kernel buffer sizes of this sandbox."),
  "C08": ("model_checking", "DESIGN.md §2 C08", "vp",
    "bounded-exhaustive enumeration of registration sets and of actions taken at every callback invocation on the real event loop (virtual clock, real epoll/eventfd/signals) against a registration model",
